@@ -68,6 +68,9 @@ def jobs(tier):
         js.append(Job(f"post_format[{fmt}]", job_post_format, fmt=fmt))
         js.append(Job(f"ufo[{fmt}]", C20.job_ufo, fmt=fmt))
     js.append(Job("reorder whole_font", C11.job_whole_font))
+    from harness import C07_rawsvg
+
+    js += C07_rawsvg.jobs(tier) + [Job(f"rawsvg[{n}]", C02.job_rawsvg, source=n) for n in C02.RAW_SOURCES]
     return js
 
 
